@@ -117,3 +117,13 @@ Theorem single_class_fit : forall st mss st1 mf sf n, 0 <= n -> Forall (heap_ge 
   gc st mss = Some (st1, mf, sf) -> n <= mf \/ sf = 0.
 Proof. exact single_class_fit_lemma. Qed.
 Print Assumptions single_class_fit.
+
+(** round 2.  [grow_formula] is the right-hand side of [new_size = ...] in sexp_grow_heap, TRANSLATED from gc.c on
+    every run (gen/c10_consts.py -> Gen/C10_Consts.v); [grow_size] of the model is that expression applied to the
+    size of the last segment.  From aligned arguments (segment sizes are aligned by [Inv], requests by sexp_alloc)
+    every segment size it produces is a multiple of the allocation unit — so [make_heap] tiles the new segment
+    exactly, no tail belongs to no chunk — and the request fits behind the header. *)
+Theorem grow_formula_aligned : forall cur size, 0 <= cur -> (unit_sz | cur) -> 0 < size -> (unit_sz | size) ->
+  (unit_sz | grow_formula cur size) /\ hdr_sz + size <= grow_formula cur size.
+Proof. exact grow_formula_aligned_lemma. Qed.
+Print Assumptions grow_formula_aligned.
